@@ -1,6 +1,8 @@
 import FormulaicVerif.Engines.Json
 import FormulaicVerif.Engines.C02
 import FormulaicVerif.Model.Parts
+import FormulaicVerif.Model.PartsHist
+import FormulaicVerif.Gen.Materializers
 /-! Engine `c07`: runs the executable model `Model/Parts.lean` (joint materialisation of a
 structured formula) on one request.
 
@@ -46,6 +48,28 @@ partial def indexTree {α} (v : V α) (i : Nat) : Json × Nat :=
       let y := indexTree kv.2 acc.2; (acc.1 ++ [jlist [Json.str kv.1, y.1]], y.2)) ([], i)
     (Json.mkObj [("node", jlist r.1)], r.2)
 
+mutual
+/-- the tree with its leaves replaced by their position in `_flatten` order -/
+def numberFrom {α} : V α → Nat → V Nat × Nat
+  | .leaf _, i => (.leaf i, i + 1)
+  | .tup vs, i => let r := numberFromT vs i; (.tup r.1, r.2)
+  | .node kvs, i => let r := numberFromI kvs i; (.node r.1, r.2)
+def numberFromT {α} : List (V α) → Nat → List (V Nat) × Nat
+  | [], i => ([], i)
+  | v :: vs, i => let a := numberFrom v i; let b := numberFromT vs a.2; (a.1 :: b.1, b.2)
+def numberFromI {α} : St.Items α → Nat → St.Items Nat × Nat
+  | [], i => ([], i)
+  | (k, v) :: r, i => let a := numberFrom v i; let b := numberFromI r a.2; ((k, a.1) :: b.1, b.2)
+end
+def numberLeaves {α} (v : V α) : V Nat := (numberFrom v 0).1
+
+/-- the tree with its (numeric) leaves shown -/
+partial def indexTree' (v : V Nat) : Json × Unit :=
+  match v with
+  | .leaf i => (Json.mkObj [("leaf", natJ i)], ())
+  | .tup vs => (Json.mkObj [("tup", jlist (vs.map (fun x => (indexTree' x).1)))], ())
+  | .node kvs => (Json.mkObj [("node", jlist (kvs.map (fun kv => jlist [Json.str kv.1, (indexTree' kv.2).1])))], ())
+
 def world (j : Json) : World String String :=
   let table := jarr j "factors"
   let droplist := natsOf (jval j "droplist")
@@ -63,9 +87,15 @@ def world (j : Json) : World String String :=
       | none => .error "KeyError-not-in-table"
       | some f => if drop == droplist then .ok (C02.factorOf f) else .error "no-encoding-for-this-drop-list" }
 
+/-- does the pandas materializer merge equally named columns for this output (generated table) -/
+def pandasMerges (output : String) : Bool :=
+  match FormulaicVerif.Gen.partsMaterializerClasses.find? (fun c => c.1 == "pandas") with
+  | some c => c.2.2.1.contains output
+  | none => false
+
 def optsOf (j : Json) : Opts :=
   { efr := jbool j "efr", cluster := jbool j "cluster",
-    variant := if jstr j "variant" = "base" then .base else .fast, asDict := jbool j "asdict" }
+    variant := if jstr j "variant" = "base" then .base else .fast, asDict := pandasMerges (jstr j "output") }
 
 def errName : PErr → String
   | .eval c => c
@@ -96,15 +126,68 @@ def oneJ (r : Except PErr (PartOut String × List Nat)) : Json :=
   | .error e => jerr (errName e)
   | .ok (p, _) => partJ p
 
+/-- the attached specs with every second leaf (odd `_flatten` position) replaced by a never materialized spec
+over the same terms -/
+def mixedOf (parts : V (PartOut String)) : V (Spec String) :=
+  let leaves := St.flatten parts
+  St.mapV (fun (i : Nat) _ =>
+    match leaves[i]? with
+    | some p => if i % 2 == 0 then p.spec else Spec.ofTerms p.spec.terms
+    | none => Spec.ofTerms []) [] (numberLeaves parts)
+
+instance : Inhabited (PartsHist.FSpec Nat) := ⟨.tup []⟩
+
+/-- a formula specification of the harness: leaves are numbered by the harness -/
+partial def fspecOf (j : Json) : PartsHist.FSpec Nat :=
+  let pairs (x : Json) : List (String × PartsHist.FSpec Nat) :=
+    (asArr x).map (fun p => match asArr p with | [k, v] => (asStr k, fspecOf v) | _ => ("", .tup []))
+  match j.getObjVal? "leaf" with
+  | .ok i => .leaf (asNat i)
+  | .error _ =>
+    match j.getObjVal? "str" with
+    | .ok s => .str (natsOf (jval s "lhs")) (natsOf (jval s "rhs"))
+    | .error _ =>
+      match j.getObjVal? "tup" with
+      | .ok t => .tup ((asArr t).map fspecOf)
+      | .error _ =>
+        match j.getObjVal? "edited" with
+        | .ok r => .edited (fspecOf r) (pairs (jval j "adds"))
+        | .error _ => .kw (pairs (jval j "kw"))
+
+def stErrName : St.Err → String
+  | .valueError => "ValueError"
+  | .keyError => "KeyError"
+  | .runtimeError => "RuntimeError"
+  | .merger => "merger"
+  | .outOfFuel => "MODEL-OUT-OF-FUEL"
+
+/-- the formula tree the MODEL builds from the specification (`PartsHist.fromSpec`); its leaves receive, in
+`_flatten` order, the term lists the parser produced for the implementation's leaves -/
+def formulaTreeOf (j : Json) : Except String (V (Spec String) × Json) :=
+  match PartsHist.fromSpec (fspecOf (jval j "fspec")) with
+  | .error e => .error (stErrName e)
+  | .ok T =>
+    let terms := (jarr j "fterms").map (fun ts => (asArr ts).map (fun t => (asArr t).map asStr))
+    let numbered := numberLeaves T
+    .ok (St.mapPure (fun (i : Nat) _ => (⟨(match terms[i]? with | some t => t | none => [["<no such leaf>"]]), none, []⟩ : Spec String)) [] numbered,
+         (indexTree' T).1)
+
 def handleJoint (j : Json) : Json :=
   let W := world j
   let o := optsOf j
-  let F := treeOf (jval j "tree")
+  let built : Except String (V (Spec String) × Json) :=
+    match j.getObjVal? "fspec" with
+    | .ok _ => formulaTreeOf j
+    | .error _ => .ok (treeOf (jval j "tree"), Json.null)
+  match built with
+  | .error e => Json.mkObj [("error", Json.str e), ("ftree_error", Json.bool true)]
+  | .ok (F, ftreeJ) =>
   match materialize W o F (strs j "order") (natsOf (jval j "caller")) with
-  | .error e => jerr (errName e)
+  | .error e => Json.mkObj [("error", Json.str (errName e)), ("ftree", ftreeJ)]
   | .ok r =>
     let leaves := St.flatten r.parts
     Json.mkObj [
+      ("ftree", ftreeJ),
       ("drop", natsJ r.drop), ("state", kvsJ r.state),
       ("tree", (indexTree r.parts 0).1), ("stree", (indexTree (specsOf r.parts) 0).1),
       ("leaves", jlist (leaves.map partJ)),
@@ -117,11 +200,242 @@ def handleJoint (j : Json) : Json :=
       ("jreplay",
         match materialize W o (specsOf r.parts) (strs j "order") r.drop with
         | .error e => jerr (errName e)
+        | .ok r2 => Json.mkObj [("tree", (indexTree r2.parts 0).1), ("leaves", jlist ((St.flatten r2.parts).map partJ))]),
+      -- … and a MIXED-STATE structure: the attached specs at the even leaf positions, fresh formula leaves (terms
+      -- only) at the odd ones, built jointly with the joint drop list supplied
+      ("mreplay",
+        match materialize W o (mixedOf r.parts) (strs j "order") r.drop with
+        | .error e => jerr (errName e)
         | .ok r2 => Json.mkObj [("tree", (indexTree r2.parts 0).1), ("leaves", jlist ((St.flatten r2.parts).map partJ))])]
+
+/-! ### op `hist`: multi-step histories (`Model/PartsHist.lean`)
+
+request `{"op":"hist", "n", "perm":[expr…], "stages":[stage…]}` (the registry of materializer classes is the
+generated table `Gen/Materializers.lean`) where a stage is
+`{"do":"build", "tree": formula tree, "cls", "params":[[k,v]…], "ov", "caller": […]|null, "table", "encs"}` (a
+materializer object of class `cls` builds a structured formula),
+`{"do":"compose", "ctree", "route":"specs"|"materializer", "cls", "params", "ov", "caller", "table", "encs"}`
+(a structured spec composed from earlier results is built), or
+`{"do":"calls", "calls":[{"tree","ov","caller"}…], "cls", "params", "table", "encs"}` (several calls on ONE
+materializer object). `table` / `encs` are what the implementation's `_evaluate_factor` and encoders returned
+during that stage: the evaluation and encoder parameters of the model answer only for the arguments they were
+observed with (expression + pooled transform state; expression + drop list + rank + encoder state handed in). -/
+
+open FormulaicVerif.Model.PartsHist
+
+abbrev HS := HSpec String String
+abbrev PH := PartH String String
+
+def optStr (j : Json) : Option String := match j with | .str s => some s | _ => none
+def optBool (j : Json) : Option Bool := match j with | .bool b => some b | _ => none
+def optNats (j : Json) : Option (List Nat) := match j with | .arr _ => some (natsOf j) | _ => none
+
+def ovOf (j : Json) : Overrides :=
+  match j with
+  | .null => Overrides.none
+  | _ => ⟨optBool (jval j "efr"), optBool (jval j "cluster"), optStr (jval j "output")⟩
+
+/-- the registry, from the table `harness/translate.py` generates out of the live package -/
+def liveClasses : List MatClass :=
+  FormulaicVerif.Gen.partsMaterializerClasses.map (fun c => ⟨c.1, c.2.1, c.2.2.1, if c.2.2.2 then .fast else .base⟩)
+
+def hworld (n : Nat) (st : Json) : HWorld String String String :=
+  let table := jarr st "table"
+  let encs := jarr st "encs"
+  let findE (e : String) (s : TState String) : Option Json :=
+    table.find? (fun f => jstr f "expr" == e && kvsOf (jval f "st") == s)
+  let findAny (e : String) : Option Json := table.find? (fun f => jstr f "expr" == e && (f.getObjVal? "error").toOption.isNone)
+  { nrows := n,
+    eval := fun e s =>
+      match findE e s with
+      | none => .error "no-evaluation-for-this-expression-and-state"
+      | some f =>
+        match f.getObjVal? "error" with
+        | .ok c => .error (asStr c)
+        | .error _ => .ok (⟨e, natsOf (jval f "nulls")⟩, kvsOf (jval f "writes")),
+    fmeta := fun e _ =>
+      match findAny e with
+      | none => ⟨true, .numerical, false, false⟩
+      | some f => ⟨jbool f "present", C02.kindOf f, jbool f "spans", jbool f "share"⟩,
+    encode := fun e _ drop r prior =>
+      match encs.find? (fun x => jstr x "expr" == e && natsOf (jval x "drop") == drop && jbool x "r" == r &&
+          optStr (jval x "prior") == prior) with
+      | none => .error "no-encoding-for-these-arguments"
+      | some x =>
+        match x.getObjVal? "error" with
+        | .ok c => .error (asStr c)
+        | .error _ => .ok (C02.encOf (jval x "enc"), jstr x "post") }
+
+def hspecFresh (j : Json) : HS := HSpec.fresh ((jarr j "terms").map (fun t => (asArr t).map asStr))
+
+partial def htreeOf (j : Json) : V HS :=
+  match j.getObjVal? "node" with
+  | .ok n => .node ((asArr n).map (fun p => match asArr p with | [k, v] => (asStr k, htreeOf v) | _ => ("", .tup [])))
+  | .error _ =>
+    match j.getObjVal? "tup" with
+    | .ok t => .tup ((asArr t).map htreeOf)
+    | .error _ => .leaf (hspecFresh (jval j "leaf"))
+
+instance : Inhabited (CTree String String) := ⟨.tup []⟩
+
+/-- the structured formula of a build: built by the MODEL from the specification when the request carries one
+(`fspec` + the parser's term lists per leaf in `_flatten` order), otherwise the tree the harness observed -/
+def hFormulaOf (j : Json) : Except HErr (V HS) :=
+  match j.getObjVal? "fspec" with
+  | .error _ => .ok (htreeOf (jval j "tree"))
+  | .ok f =>
+    match PartsHist.fromSpec (fspecOf f) with
+    | .error .valueError => .error .value
+    | .error .keyError => .error .key
+    | .error _ => .error .runtime
+    | .ok T =>
+      let terms := (jarr j "fterms").map (fun ts => (asArr ts).map (fun t => (asArr t).map asStr))
+      .ok (St.mapPure (fun (i : Nat) _ => (HSpec.fresh (match terms[i]? with | some t => t | none => [["<no such leaf>"]]) : HS))
+        [] (numberLeaves T))
+
+partial def ctreeOf (j : Json) : CTree String String :=
+  let pairs (x : Json) : List (String × CTree String String) :=
+    (asArr x).map (fun p => match asArr p with | [k, v] => (asStr k, ctreeOf v) | _ => ("", .tup []))
+  match j.getObjVal? "ref" with
+  | .ok r =>
+    match asArr r with
+    | [b, k, i] => if asStr k = "top" then .refTop (asNat b) (asNat i) else .refLeaf (asNat b) (asNat i)
+    | [b, _] => .refWhole (asNat b)
+    | _ => .tup []
+  | .error _ =>
+    match j.getObjVal? "fresh" with
+    | .ok f => .fresh (htreeOf f)
+    | .error _ =>
+      match j.getObjVal? "tup" with
+      | .ok t => .tup ((asArr t).map ctreeOf)
+      | .error _ =>
+        match j.getObjVal? "inplace" with
+        | .ok b => .inplace (asNat b) (pairs (jval j "adds"))
+        | .error _ => .kw (pairs (jval j "kw"))
+
+def herrName : HErr → String
+  | .part e => errName e
+  | .notFound => "FormulaMaterializerNotFoundError"
+  | .badOutput => "FormulaMaterializationError"
+  | .index => "IndexError"
+  | .value => "ValueError"
+  | .attribute => "AttributeError"
+  | .key => "KeyError"
+  | .runtime => "RuntimeError"
+
+def optStrJ : Option String → Json
+  | some s => Json.str s
+  | none => Json.null
+
+def encJ (d : EncDict String) : Json :=
+  jlist (d.map (fun kv => jlist [Json.str kv.1, Json.str kv.2.kind, Json.str kv.2.state]))
+
+def hspecJ (h : HS) : Json :=
+  Json.mkObj [("terms", termsJ h.core.terms), ("structure", structJ h.core.struct), ("state", kvsJ h.core.state),
+    ("enc", encJ h.enc), ("materializer", optStrJ h.materializer),
+    ("params", match h.params with | some p => kvsJ p | none => Json.null),
+    ("output", optStrJ h.output), ("efr", Json.bool h.efr), ("cluster", Json.bool h.cluster)]
+
+def partHJ (p : PH) : Json :=
+  Json.mkObj [("rows", natsJ p.matrix.rows), ("nrows", natJ p.matrix.rows.length),
+    ("columns", jlist (p.matrix.cols.map C02.entryJ)), ("spec", hspecJ p.spec)]
+
+def partsJ (parts : V PH) : List (String × Json) :=
+  [("tree", (indexTree parts 0).1), ("leaves", jlist ((St.flatten parts).map partHJ))]
+
+def envOf (j : Json) (st : Json) : Env String String String :=
+  { classes := liveClasses, forData := some FormulaicVerif.Gen.forDataPandas,
+    world := fun _ => hworld (jnat j "n") st }
+
+def callerOf (st : Json) : List Nat := match optNats (jval st "caller") with | some l => l | none => []
+
+/-- one stage; returns the answer and, when it succeeded, the result later stages may refer to -/
+def runStage (j : Json) (res : List (V PH)) (st : Json) : Json × Option (V PH) :=
+  let E := envOf j st
+  let perm := strs j "perm"
+  let fail (e : HErr) : Json × Option (V PH) := (jerr (herrName e), none)
+  match jstr st "do" with
+  | "build" =>
+    match E.byName (jstr st "cls") with
+    | .error e => fail e
+    | .ok mc =>
+      match hFormulaOf st with
+      | .error e => fail e
+      | .ok F =>
+      match materializeH (E.world mc.name) mc (kvsOf (jval st "params")) F (ovOf (jval st "ov"))
+          perm (callerOf st) with
+      | .error e => fail e
+      | .ok r => (Json.mkObj (partsJ r.parts ++ [("drop", natsJ r.drop), ("dropset", natsJ (sortSet r.dropSet))]), some r.parts)
+  | "compose" =>
+    match composeC res (ctreeOf (jval st "ctree")) with
+    | .error e => fail e
+    | .ok S =>
+      let origin := Json.mkObj [("tree", (indexTree (St.norm S) 0).1), ("leaves", jlist ((St.flatten (St.norm S)).map hspecJ))]
+      if jstr st "route" = "materializer" then
+        match E.byName (jstr st "cls") with
+        | .error e => fail e
+        | .ok mc =>
+          match materializeH (E.world mc.name) mc (kvsOf (jval st "params")) S (ovOf (jval st "ov")) perm (callerOf st) with
+          | .error e => (Json.mkObj [("error", Json.str (herrName e)), ("origin", origin)], none)
+          | .ok r => (Json.mkObj (partsJ r.parts ++ [("drop", natsJ r.drop), ("dropset", natsJ (sortSet r.dropSet)),
+              ("origin", origin), ("jointly", Json.bool true), ("passes", natJ 1)]), some r.parts)
+      else
+        -- `ModelSpec.from_spec(S)` / `model_matrix(S, …)` re-run the constructors before `get_model_matrix` is
+        -- called ("norm"); `S.get_model_matrix(…)` on the composed object itself does not
+        match specsGetModelMatrix E (if jbool st "norm" then St.norm S else S) (ovOf (jval st "ov")) perm (callerOf st) with
+        | .error e => (Json.mkObj [("error", Json.str (herrName e)), ("origin", origin)], none)
+        | .ok r => (Json.mkObj (partsJ r.parts ++ [("dropset", natsJ (sortSet r.dropSet)), ("origin", origin),
+            ("jointly", Json.bool r.jointly), ("passes", natJ r.passes)]), some r.parts)
+  | "derive" =>
+    -- `result.model_spec.subset(formula)` / `.differentiate(*wrt)` of an earlier result, then built through
+    -- `ModelSpecs.get_model_matrix`
+    match pickMod res (jnat st "from") with
+    | .error e => fail e
+    | .ok r0 =>
+      let S0 := specsOfH r0
+      let termsOf (x : Json) : List MTerm := (asArr x).map (fun t => (asArr t).map asStr)
+      let derived : Except HErr (V HS) :=
+        if jstr st "op" = "subset" then
+          specsSubset S0 (match jval st "fm" with
+            | .null => none
+            | f => some (St.mapV (fun (h : HS) _ => h.core.terms) [] (htreeOf f)))
+        else
+          let table := (jarr st "dterms").map (fun p => match asArr p with | [a, b] => (termsOf a, termsOf b) | _ => ([], []))
+          .ok (specsDifferentiate (fun ts => match table.lookup ts with | some d => d | none => [["<no derivative in the table>"]]) S0)
+      match derived with
+      | .error e => (Json.mkObj [("derive", jerr (herrName e))], none)
+      | .ok S =>
+        let dj := Json.mkObj [("tree", (indexTree S 0).1), ("leaves", jlist ((St.flatten S).map hspecJ))]
+        match specsGetModelMatrix E S Overrides.none perm (callerOf st) with
+        | .error e => (Json.mkObj [("derive", dj), ("error", Json.str (herrName e))], none)
+        | .ok r => (Json.mkObj (partsJ r.parts ++ [("derive", dj), ("dropset", natsJ (sortSet r.dropSet)),
+            ("jointly", Json.bool r.jointly), ("passes", natJ r.passes)]), some r.parts)
+  | "calls" =>
+    match E.byName (jstr st "cls") with
+    | .error e => fail e
+    | .ok mc =>
+      let W := E.world mc.name
+      let step (acc : MatObj String String × List Json × Option (V PH)) (c : Json) :=
+        let F : V HS := match hFormulaOf c with | .ok F => F | .error _ => .node []
+        let r := MatObj.call W mc (kvsOf (jval st "params")) acc.1 F (ovOf (jval c "ov")) perm (callerOf c)
+        match r.1 with
+        | .error e => (r.2, acc.2.1 ++ [jerr (herrName e)], acc.2.2)
+        | .ok x => (r.2, acc.2.1 ++ [Json.mkObj (partsJ x.parts ++ [("drop", natsJ x.drop), ("dropset", natsJ (sortSet x.dropSet))])],
+            some x.parts)
+      let out := (jarr st "calls").foldl step (MatObj.empty, [], none)
+      (Json.mkObj [("calls", jlist out.2.1)], out.2.2)
+  | o => (jerr ("unknown stage " ++ o), none)
+
+def handleHist (j : Json) : Json :=
+  let out := (jarr j "stages").foldl (fun (acc : List Json × List (V PH)) st =>
+    let r := runStage j acc.2 st
+    (acc.1 ++ [r.1], match r.2 with | some p => acc.2 ++ [p] | none => acc.2)) ([], [])
+  Json.mkObj [("stages", jlist out.1)]
 
 def handle (j : Json) : Json :=
   match jstr j "op" with
   | "joint" => handleJoint j
+  | "hist" => handleHist j
   | "noop" => Json.mkObj []
   | o => jerr ("unknown op " ++ o)
 
